@@ -82,13 +82,20 @@ def _same(d1, d2):
     return True
 
 
-def execute(o, share, ro, cbmode, share_copy=False):
+DTYPES = {"f8": np.float64, "f4": np.float32, "g": np.longdouble}
+
+
+def execute(o, share, ro, cbmode, share_copy=False, dt="f8"):
     """Run one program; returns the logged outcome.  share_copy: bind the second slot of the
-    shared pair to an equal-valued COPY (the baseline a shared program is compared with)."""
+    shared pair to an equal-valued COPY (the baseline a shared program is compared with).
+    dt: floating type in which the float64 array arguments are handed over."""
     with warnings.catch_warnings():
         warnings.simplefilter("ignore")
         np.seterr(all="ignore")
         vals = o.make()
+        if dt != "f8":
+            vals = [v.astype(DTYPES[dt]) if (kd == "A" and isinstance(v, np.ndarray) and v.dtype == np.float64) else v
+                    for v, kd in zip(vals, o.kinds)]
         if share != (0, 0):
             vals[share[1] - 1] = copy.deepcopy(vals[share[0] - 1]) if share_copy else vals[share[0] - 1]
         names = [f"slot{i + 1}:{k}" for i, k in enumerate(o.kinds)]
@@ -148,21 +155,31 @@ def _run_op(k, prs):
             return {"changed": [], "exc": "MemoryError", "same": True}, None
         finally:
             signal.alarm(0)
-    for (_, share, ro, cbm) in prs:
+    for (_, share, ro, cbm, dt) in prs:
         fun = "const" if cbm == "cached" else "ident"
-        bkey = (share, fun if cbm != "none" else "none")
+        bkey = (share, fun if cbm != "none" else "none", dt)
         if bkey not in baselines:
             bmode = "none" if cbm == "none" else ("fresh-const" if fun == "const" else "fresh")
-            baselines[bkey] = guarded(share, 0, bmode, share_copy=True)
-        out, dig = guarded(share, ro, cbm)
+            baselines[bkey] = guarded(share, 0, bmode, share_copy=True, dt=dt)
+        out, dig = guarded(share, ro, cbm, dt=dt)
         bout, bdig = baselines[bkey]
         if out["exc"] == "" and bout["exc"] == "" and bdig is not None and dig is not None:
             out["same"] = _same(dig, bdig)
-        rec = {"k": k, "share": list(share), "ro": ro, "cb": cbm, "changed": out["changed"], "exc": out["exc"], "same": bool(out["same"])}
-        if out["exc"] and out["exc"] != "read-only" and bout["exc"] == out["exc"] and share == (0, 0) and ro == 0 and cbm in ("none", "fresh"):
+        rec = {"k": k, "share": list(share), "ro": ro, "cb": cbm, "dt": dt, "changed": out["changed"], "exc": out["exc"],
+               "same": bool(out["same"]), "basexc": bout["exc"]}
+        if dt == "f8" and out["exc"] and out["exc"] != "read-only" and bout["exc"] == out["exc"] and share == (0, 0) and ro == 0 and cbm in ("none", "fresh"):
             rec["fixture_broken"] = True
         out_recs.append(rec)
     return out_recs
+
+
+def _dts(o):
+    """Floating types, besides float64, in which an operation's array arguments are also handed over: every
+    operation that takes an array, except the heavy ones (run time) and those that opt out in the table."""
+    d = getattr(o, "dts", None)
+    if d is not None:
+        return tuple(d)
+    return () if (o.heavy or "A" not in o.kinds) else ("f4", "g")
 
 
 def _write_tables(wd, ops):
@@ -170,7 +187,7 @@ def _write_tables(wd, ops):
              "Api == <<"]
     rows = []
     for o in ops:
-        rows.append("  " + tlc.tla({"op": o.name, "kinds": list(o.kinds), "pairs": set(o.pairs), "cbs": set(o.cbs)}))
+        rows.append("  " + tlc.tla({"op": o.name, "kinds": list(o.kinds), "pairs": set(o.pairs), "cbs": set(o.cbs), "dts": set(_dts(o))}))
     lines.append(",\n".join(rows))
     lines += [">>", "===="]
     (wd / "Tables_api.tla").write_text("\n".join(lines) + "\n")
@@ -191,19 +208,19 @@ def run(tier: str) -> int:
     rep.set("as_shipped_variant_refuted", r2.status == "violation")
     if r2.status != "violation":
         raise tlc.MachineryError("as-shipped variant (solvers write caller buffers) is not refuted")
-    progs = sorted((p[1], tuple(p[3]), p[4], p[5]) for p in tlc.tagged(res.stdout, "PROG"))
+    progs = sorted((p[1], tuple(p[3]), p[4], p[5], p[6]) for p in tlc.tagged(res.stdout, "PROG"))
     rep.set("programs_in_specification", len(progs))
     if len(progs) < len(ops):
         raise tlc.MachineryError(f"only {len(progs)} programs emitted")
 
     # selection: quick = every op with every pattern except that heavy ops only get {distinct} x {0,-1}
     sel = []
-    for k, share, ro, cbm in progs:
+    for k, share, ro, cbm, dt in progs:
         o = ops[k - 1]
         allmask = sum(1 << i for i, kd in enumerate(o.kinds) if kd in ("A", "G"))
         if o.heavy and (share != (0, 0) or ro not in (0, allmask)):
             continue     # heavy operations (Poisson solvers, molecular interpolation): no sharing, nothing / everything protected
-        sel.append((k, share, ro, cbm))
+        sel.append((k, share, ro, cbm, dt))
     # programs are executed in forked children (one task per operation) with an address-space limit
     # and a per-program alarm: a library that starts to diverge on an aliased input must not take
     # the harness down with it
@@ -218,13 +235,13 @@ def run(tier: str) -> int:
             try:
                 recs = job.get(timeout=1500)
             except Exception as ex:  # noqa: BLE001  child died (memory limit, crash)
-                recs = [{"k": k, "share": list(sh), "ro": ro, "cb": cbm, "changed": [], "exc": "child-" + type(ex).__name__, "same": True}
-                        for (_, sh, ro, cbm) in by_op[k]]
+                recs = [{"k": k, "share": list(sh), "ro": ro, "cb": cbm, "dt": dt, "changed": [], "exc": "child-" + type(ex).__name__,
+                         "same": True, "basexc": ""} for (_, sh, ro, cbm, dt) in by_op[k]]
             for r in recs:
                 if r.pop("fixture_broken", False):
                     raise tlc.MachineryError(f"fixture of {ops[k - 1].name} fails without any aliasing: {r['exc']}")
                 obs.append(r)
-                rep.evaluated(1, (r["k"], tuple(r["share"]), r["ro"], r["cb"]))
+                rep.evaluated(1, (r["k"], tuple(r["share"]), r["ro"], r["cb"], r["dt"]))
     with open(wd / "obs_c20.json", "w") as f:
         json.dump(obs, f)
     j = tlc.run_tlc("CallFrameTrace", "Trace_CallFrame.cfg", wd, workers=1).require_ok("Trace_CallFrame")
@@ -234,8 +251,8 @@ def run(tier: str) -> int:
         raise tlc.MachineryError(f"TLC judged {judged} of {len(obs)} programs")
     for _, pos, opname, verdict in tlc.tagged(j.stdout, "REJECT"):
         r = obs[pos - 1]
-        rep.violation(f"{opname}:{verdict}:{','.join(r['changed']) or r['exc'] or 'result'}",
-                      f"{opname} with sharing {r['share']}, read-only mask {r['ro']}, callback mode {r['cb']}: {verdict}; "
+        rep.violation(f"{opname}:{verdict}:{','.join(r['changed']) or r['exc'] or 'result'}" + ("" if r["dt"] == "f8" else f":arrays={r['dt']}"),
+                      f"{opname} with sharing {r['share']}, read-only mask {r['ro']}, callback mode {r['cb']}, array type {r['dt']}: {verdict}; "
                       f"changed buffers {r['changed']}, exception {r['exc']!r}",
                       {"op": opname, **r})
     if tier == "thorough":
@@ -249,7 +266,7 @@ def run(tier: str) -> int:
     rep.set("exhaustive", tier == "thorough")
     for r in obs[:3] + obs[len(obs) // 2: len(obs) // 2 + 2]:
         rep.sample({"op": ops[r["k"] - 1].name, **r})
-    rep.set("rule", "one case = one program (operation, shared slot pair, read-only mask, callback-return mode) emitted by TLC, executed "
+    rep.set("rule", "one case = one program (operation, shared slot pair, read-only mask, callback-return mode, floating type of the array arguments) emitted by TLC, executed "
                     "with byte-wise snapshots, judged by TLC; distinct = distinct programs")
     rep.assume("the operation table vf/api_table.py covers the public operations that take arrays/lists/dicts/callbacks; operations not in the table are not checked")
     return rep.finish()
@@ -261,8 +278,8 @@ def replay(path: str) -> int:
     c = v["case"]
     ops = api_table.load()
     o = [x for x in ops if x.name == c["op"]][0]
-    out, _ = execute(o, tuple(c["share"]), c["ro"], c["cb"])
-    print("replay:", c["op"], c["share"], c["ro"], c["cb"], "->", out)
+    out, _ = execute(o, tuple(c["share"]), c["ro"], c["cb"], dt=c.get("dt", "f8"))
+    print("replay:", c["op"], c["share"], c["ro"], c["cb"], c.get("dt", "f8"), "->", out)
     return 1 if (out["changed"] or out["exc"]) else 0
 
 
@@ -321,7 +338,27 @@ def selftest(tier: str = "quick") -> int:
             return orig(atomgrid, func_vals, transform, boundary, include_origin, remove_large_pts, ode_params)
         return patched(po, "_solve_poisson_bvp_atomgrid", s)
 
-    muts = [("ode-accumulates-into-fx", ode_inplace), ("integrate-multiplies-in-place", integrate_inplace),
+    def coulomb_aliases_extended_input():   # asarray(..., dtype=longdouble) copies float64 input but aliases extended-precision input
+        import grid.coulomb as co
+        orig = co.coulomb_gaussian_s
+
+        def g(r, alpha, normalized=True):
+            rr = np.atleast_1d(np.asarray(r, dtype=np.longdouble))
+            rr += 1e-30     # "avoid the division by zero"
+            return orig(rr, alpha, normalized)
+        return patched(co, "coulomb_gaussian_s", g)
+
+    def moments_single_precision_alias():   # same for float32 function values
+        orig = bg.Grid.integrate
+
+        def integ(self, *value_arrays):
+            first = np.asarray(value_arrays[0], dtype=np.float32)
+            first *= 1.0000001
+            return orig(self, *value_arrays)
+        return patched(bg.Grid, "integrate", integ)
+
+    muts = [("extended-precision-input-aliased", coulomb_aliases_extended_input), ("single-precision-input-aliased", moments_single_precision_alias),
+            ("ode-accumulates-into-fx", ode_inplace), ("integrate-multiplies-in-place", integrate_inplace),
             ("harmonics-wrap-theta-in-place", sph_wraps_theta), ("becke-touches-atcoords", becke_sorts_select),
             ("poisson-setdefault", poisson_setdefault)]
     return run_mutants(PROP, run, muts, tier)
